@@ -19,6 +19,43 @@ var Registry = map[string]func(*core.Ctx) int{}
 type Text struct {
 	Name string
 	Toks []string
+	Raw  string // when set: a hand-written text (with comments) used as is; Toks are its default-channel tokens
+}
+
+// specialTexts are valid texts whose comments, doc strings and string keys contain characters that
+// are special to printf-style formatting, escaping and encodings, and repeated identical comments.
+func specialTexts() []Text {
+	raws := map[string]string{
+		"percent":                 "// 100% sure %d %s %v %%\npacket P { // trailing 50%\n    u16 a `rate in % (e.g. 5%d)`,\n    match a as b {\n        1 : Q, // %x\n    },\n}\npacket Q {\n}\n",
+		"backslash":               "// path C:\\dir\\n and \\t\npacket P {\n    u16 a `a\\nb \\x00 \\`,\n    string k,\n    match k as b {\n        \"a\\\"b\" : Q,\n        \"%s\\\\\" : R,\n    },\n}\npacket Q {\n}\npacket R {\n}\n",
+		"unicode":                 "// 注释 — ünïcode ✓\npacket P {\n    u16 a `说明 ✓ é`, // 尾注\n    string s `😀`,\n}\n",
+		"same-comment-twice":      "packet P {\n    // reserved, must be zero\n    u16 a,\n    // reserved, must be zero\n    u16 b, // lots\n    u16 c, // lots\n}\n",
+		"same-comment-top":        "// note\noptions {\n    // note\n    LittleEndian = true; // note\n    StringPrefixLenType = u8; // note\n}\n// note\npacket P {\n    u16 a,\n}\n",
+		"comment-markers-inside":  "packet P { // a // b /// c\n    u16 a, //\n    u16 b, ////\n}\n",
+		"tabs-in-comment":         "packet P {\n    u16 a, //\ttabbed\tcomment  with  spaces   \n}\n",
+		"doc-with-comment-marker": "packet P {\n    u16 a `// not a comment`,\n    u16 b `ends with slash /`,\n}\n",
+	}
+	var names []string
+	for n := range raws {
+		names = append(names, n)
+	}
+	sort.Strings(names)
+	var out []Text
+	for _, n := range names {
+		raw := raws[n]
+		toks, err := api.Lex(raw)
+		if err != nil {
+			continue
+		}
+		var tt []string
+		for _, t := range toks {
+			if t.Channel == 0 {
+				tt = append(tt, t.Text)
+			}
+		}
+		out = append(out, Text{Name: "special/" + n, Toks: tt, Raw: raw})
+	}
+	return out
 }
 
 // grammarTexts enumerates the E2 derivations: for every rule, every derivation within `budget`
